@@ -231,6 +231,12 @@ pub fn guarded<T>(f: impl FnOnce() -> T) -> Result<T, String> {
     catch_unwind(AssertUnwindSafe(f)).map_err(|_| LAST_PANIC.with(|p| p.borrow().clone()))
 }
 
+/// VERIF_SEED: rotates which members of a sub-sampled quick tier are taken; deciding enumerations do
+/// not depend on it otherwise
+pub fn seed() -> u64 {
+    std::env::var("VERIF_SEED").ok().and_then(|s| s.parse::<i64>().ok()).unwrap_or(0) as u64
+}
+
 pub fn n_threads() -> usize {
     std::env::var("VERIF_THREADS")
         .ok()
